@@ -739,6 +739,18 @@ func checkPendingCleanup(r *Report, s *Sem, rule string) {
 // elements of slice parameters of fn.
 func offeredSetLookupGuard(b *ssa.BasicBlock, fn *ssa.Function, ses ssa.Value, field string) bool {
 	return condGuard(b, func(cd Cond) bool {
+		// a hand-written scan: the edge `offered[i] == peer.field` for an element of the offered list handed to this function
+		if cd.Op == token.EQL {
+			x, y := cd.X, cd.Y
+			if !fieldOf(x, ses, field) {
+				x, y = y, x
+			}
+			if fieldOf(x, ses, field) {
+				if pr := sliceElemParam(y); pr != nil && pr.Parent() == fn {
+					return true
+				}
+			}
+		}
 		if cd.Op != token.ILLEGAL || !cd.True {
 			return false
 		}
